@@ -108,6 +108,23 @@ Proof.
     rewrite E in Hin. rewrite (get_in s nm sl); auto. apply in_map_iff. now exists (k, i).
 Qed.
 
+(* every name of the set has a package *)
+Definition aset_nonempty (s : aset) : Prop := forall nm sl, In (nm, sl) s -> sl <> [].
+Lemma slice_add_nonempty key id sl : slice_add key id sl <> [].
+Proof.
+  unfold slice_add. destruct (scan_slice key sl 0 None) as [[p|]|] eqn:E.
+  - intro C. apply (f_equal (@length _)) in C. rewrite app_length in C. cbn in C. lia.
+  - intro C. apply (f_equal (@length _)) in C. rewrite app_length in C. cbn in C. lia.
+  - intro C. subst sl. cbn in E. discriminate.
+Qed.
+Lemma aset_add_nonempty s nm key id :
+  StronglySorted name_asc s -> aset_nonempty s -> aset_nonempty (aset_add s nm key id).
+Proof.
+  intros HS HN nm' sl Hin. unfold aset_add in Hin. apply upd_entries in Hin as [E|[Hin _]]; auto.
+  - injection E as -> ->. apply slice_add_nonempty.
+  - eapply HN; eauto.
+Qed.
+
 (* ---- the sorted listing *)
 Lemma sorted_atoms_in s i : aset_ok s -> (In i (sorted_atoms s) <-> aset_mem s i).
 Proof.
